@@ -83,7 +83,10 @@ class E:
 
     def calls(self, suffix=None):
         for n in self.walk():
-            if n.kind == 'call' and (suffix is None or name_matches(n.op, suffix)):
+            if n.kind != 'call':
+                continue
+            if suffix is None or (isinstance(suffix, Fn) and n.info.get('key') == suffix.key) or \
+                    (not isinstance(suffix, Fn) and name_matches(n.op, suffix)):
                 yield n
 
     def has_call(self, suffix):
@@ -621,12 +624,24 @@ class Fn:
         out[t['o']].add('otherwise')
         return out
 
+    def switch_ty(self, b):
+        t = self.blocks[b]['term']
+        d = t.get('d') or {}
+        if d.get('k') == 'const':
+            return d.get('ty', '')
+        if d.get('k') in ('copy', 'move'):
+            pl = d['pl']
+            if not pl['p']:
+                return self.locals[pl['l']]
+            return pl['p'][-1].get('ty', '')
+        return ''
+
     def bool_edges(self, b):
         """For a switch on a boolean: (false_target, true_target), else None."""
         t = self.blocks[b]['term']
         if t['k'] != 'switch':
             return None
-        if len(t['ts']) == 1 and t['ts'][0][0] == '0':
+        if len(t['ts']) == 1 and t['ts'][0][0] == '0' and self.switch_ty(b) == 'bool':
             return (t['ts'][0][1], t['o'])
         return None
 
@@ -764,6 +779,8 @@ class CallSite:
     def matches(self, suffix):
         if isinstance(suffix, (list, tuple, set, frozenset)):
             return any(self.matches(s) for s in suffix)
+        if isinstance(suffix, Fn):
+            return self.key == suffix.key
         return name_matches(self.callee, suffix) or name_matches(self.syntactic, suffix)
 
     def arg(self, i):
